@@ -200,6 +200,8 @@ template <size_t L> struct X {
    bool begin() {                                // restores the state; false = transition filtered out by a replay
       ++tno;
       if (g_replay_t >= 0 && int64_t(tno) != g_replay_t) return false;
+      if (vf::ctx().capped) return false;                                                        // deadline passed: the remaining tuples are skipped (the evidence says capped)
+      if ((transitions & 0xfffff) == 0xfffff && vf::deadline_hit()) return false;
       memcpy(static_cast<void*>(&fs), cur.data(), SZ);
       g_asan = 0; ++transitions;
       if ((transitions & 0x3ff) == 0) vf::heartbeat();
@@ -795,7 +797,8 @@ int main(int argc, char** argv) {
    auto on = [&](int c, bool deflt) { return caps.empty() ? deflt : caps.find("," + std::to_string(c) + ",") != std::string::npos; };
    const bool th = vf::thorough();
    if (on(1, true)) explore_cap_1(); if (on(2, true)) explore_cap_2(); if (on(3, true)) explore_cap_3();
-   if (on(4, th)) explore_cap_4(); if (on(5, th)) explore_cap_5(); if (on(7, th)) explore_cap_7(); if (on(255, th)) explore_cap_255(); if (on(256, th)) explore_cap_256();
+   // the largest search (L=7) runs last, so that a deadline only ever cuts into it
+   if (on(4, th)) explore_cap_4(); if (on(5, th)) explore_cap_5(); if (on(255, th)) explore_cap_255(); if (on(256, th)) explore_cap_256(); if (on(7, th)) explore_cap_7();
    vf::finish();
    return 0;
 }
